@@ -2,6 +2,7 @@
    strip [cps]                                   -> ok [cps]
    tobytes <be> <w> <colmajor> [dims] [elems]    -> ok x<hex>
    frombuf <be> <w> <colmajor> [dims] x<hex>     -> ok [elems] | err data
+   arr2txt <signed> <w> [dims] [elems]           -> ok [cps] | err refused     (_arr2txt with '%d')
    cont <n> (<id> <intent>)* OP*                 -> ok <r1>;<r2>;...
         OP = add <id> <intent> | rm <i> | rmi <intent> | sel <intent> | agg <intent|->
         r  = [ids] (list after add/rm/rmi, selection for sel) | IndexError | S[ids] | O<id> | T[ids]
@@ -95,6 +96,9 @@ let handle op args = match op, args with
     (match frombuffer (bool_of_string be) (nat_of_int (int_of_string w)) (bytes_of_hex h) with
      | Some e -> "ok " ^ string_of_zlist (reorder_from (bool_of_string cm) (natlist_of_string dims) e)
      | None -> "err data")
+  | "arr2txt", [sg; w; dims; el] ->
+    (match arr2txt_int (bool_of_string sg) (nat_of_int (int_of_string w)) (natlist_of_string dims) (zlist_of_string el) with
+     | Some t -> "ok " ^ string_of_zlist t | None -> "err refused")
   | "cont", n :: r -> let (l, ops) = items_of_args (int_of_string n) r in "ok " ^ String.concat ";" (do_ops l ops)
   | "parse", _ -> do_parse false args
   | "pmerge", _ -> do_parse true args
